@@ -1044,6 +1044,8 @@ void flatcc_json_printer_table_vector_field(flatcc_json_printer_t *ctx,
         while (count--) {
             ++p;
             print_char(',');
+            /* Elements may print nothing (recursion limit): bound the run. */
+            flatcc_json_printer_flush_partial(ctx);
             print_table_object(ctx, read_uoffset_ptr(p), td->ttl, pf);
         }
         print_end(']');
@@ -1102,6 +1104,8 @@ void flatcc_json_printer_union_vector_field(flatcc_json_printer_t *ctx,
             ++types;
             type = __flatbuffers_utype_read_from_pe(types);
             print_char(',');
+            /* NONE and unknown members print without any flush check. */
+            flatcc_json_printer_flush_partial(ctx);
             if (type != 0) {
                 ud.type = type;
                 ud.member = p;
